@@ -418,3 +418,88 @@ PROPS["C02"]["theorems"] = [
     "Lace.C02.execute_no_panic",
     "Lace.regfield_lt",
 ]
+
+
+# ---------------------------------------------------------------- C07 / C08 (process mode)
+def c07_compare(rq, impl, model):
+    out = cmp_default(rq, impl, model)
+    # the property itself, checked directly on the implementation's three exit statuses
+    f = dict(x.split("=", 1) for x in impl.split(" ") if "=" in x)
+    ck, cp, rn = f.get("check"), f.get("compile"), f.get("run")
+    bad = None
+    if "panic" in (ck, cp, rn):
+        bad = "a command panicked"
+    elif ck == "0" and cp != "0":
+        bad = "check reports success but compile fails"
+    elif cp != "0" and (ck == "0" or rn == "ok"):
+        bad = "compile rejects the source but check or run accept it"
+    if bad and not any(d["kind"] == "impl-vs-spec" for d in out):
+        out.append({"kind": "impl-vs-spec", "request": rq, "impl": impl, "model": model, "spec": bad})
+    return out
+
+
+PROPS["C07"] = {
+    "theorems": [
+        "Lace.C07.check_ok_imp_compile_ok",
+        "Lace.C07.compile_err_imp_check_err_and_run_err",
+        "Lace.C07.check_compile_run_agree",
+        "Lace.C07.emission_error_fails_check",
+        "Lace.C05.assemble_no_panic",
+    ],
+    "needs_bin": True,
+    "compare": lambda rq, impl, model: c07_compare(rq, impl, model if " ;; S " in model else model + " ;; S " + split_ms(model)[0]),
+    "classify": lambda rq, impl: impl,
+    "nontrivial": lambda rq, impl: True,
+    "group": lambda d: d["impl"],
+    "rule": ("process mode: for each generated source and each feature setting the real `lace check`, `lace compile` and "
+             "`lace run` are spawned and their exit statuses (and whether run got past assembling) compared with the "
+             "model of main.rs driven by the assembler model, and with each other (the property predicate itself). "
+             "Sources: a label reference exactly at / one beyond / one inside the limit of its field, forwards and "
+             "backwards, at every statement position, for every PC-relative instruction (br*, ld, ldi, lea, st, sti, "
+             "jsr, call); sources using the stack mnemonics; plain valid and invalid sources. A case = (source, flag)."),
+    "trusted": ["clap argument parsing; `lace watch` (inotify) is not exercised, it calls the same assemble()"],
+    "assumptions": ["`run` counts as accepting the source iff it prints `Running emitted binary`"],
+}
+
+
+def c08_compare(rq, impl, model):
+    m, _ = split_ms(model)
+    out = cmp_default(rq, impl, "M " + m + " ;; S " + m)
+    # direct all-or-nothing predicate on the implementation
+    f = rq.split(" ")
+    dest = f[3] if len(f) > 3 else ""
+    st = impl.split(" ")[0]
+    after = impl.split("dest=", 1)[1] if "dest=" in impl else ""
+    before = {"absent": "absent", "devfull": "devfull", "nodir": "nodir"}.get(dest, "file:" + dest[4:] if dest.startswith("pre:") else "?")
+    bad = None
+    if st == "st=panic":
+        bad = "compile panicked"
+    elif st != "st=0" and after != before:
+        bad = "compile failed but the destination changed: before %s after %s" % (before, after)
+    elif st == "st=0" and not after.startswith("file:"):
+        bad = "compile reports success but no object file exists"
+    if bad and not any(d["kind"] == "impl-vs-spec" for d in out):
+        out.append({"kind": "impl-vs-spec", "request": rq, "impl": impl, "model": model, "spec": bad})
+    return out
+
+
+PROPS["C08"] = {
+    "theorems": [
+        "Lace.C08.compile_all_or_nothing",
+        "Lace.C08.compile_fail_at",
+        "Lace.C08.compile_unwritable",
+        "Lace.C08.emitAll_fail_at",
+    ],
+    "needs_bin": True,
+    "compare": c08_compare,
+    "classify": lambda rq, impl: (rq.split(" ")[3].split(":")[0] if len(rq.split(" ")) > 3 else "?") + ":" + impl.split(" ")[0],
+    "nontrivial": lambda rq, impl: True,
+    "group": lambda d: d["impl"].split(" ")[0],
+    "rule": ("process mode: `lace compile src dest` with an emission failure (out-of-range label reference) injected at "
+             "every statement position k of n (and no failure), and other invalid sources; destination pre-existing "
+             "with known random contents, absent, /dev/full, or in a non-existent directory; observed: exit status "
+             "and the destination's bytes afterwards, compared with the abstract-file-system model of the Compile arm "
+             "driven by the assembler model, and checked directly against the all-or-nothing predicate."),
+    "trusted": ["real file-system semantics beyond: create fails in a missing directory, /dev/full accepts open but no data"],
+    "assumptions": ["PARTIAL: a write failing half-way on a regular file (disk full) is OS behaviour outside the file-system model"],
+}
